@@ -83,6 +83,7 @@ func main() {
 	list := flag.Bool("list", false, "list registered properties")
 	mut := flag.String("mutants", "", "development: run the overlay catalogue of a property (or 'all')")
 	flag.Parse()
+	verifDirGlobal = *verif
 
 	if *tier == "" {
 		*tier = os.Getenv("VERIF_TIER")
